@@ -96,6 +96,40 @@ impl Query {
         s.push_str(if self.aggs.iter().any(|(f, e)| *f != AggFn::CountStar && !matches!(e, Expr::Col(_))) { "A" } else { "-" });
         s
     }
+    /// the same query without the aggregates that neither the select list nor HAVING mentions (they
+    /// are not part of the SQL text; the environment positions are renumbered)
+    pub fn pruned(&self) -> Query {
+        fn shift(e: &Expr, from: usize) -> Expr {
+            let b = |x: &Expr| Box::new(shift(x, from));
+            match e {
+                Expr::Col(i) => Expr::Col(if *i > from { *i - 1 } else { *i }),
+                Expr::Lit(v) => Expr::Lit(v.clone()),
+                Expr::Arith(op, a, c) => Expr::Arith(*op, b(a), b(c)),
+                Expr::Cmp(op, a, c) => Expr::Cmp(*op, b(a), b(c)),
+                Expr::And(a, c) => Expr::And(b(a), b(c)),
+                Expr::Or(a, c) => Expr::Or(b(a), b(c)),
+                Expr::Not(a) => Expr::Not(b(a)),
+                Expr::In(n, a, l) => Expr::In(*n, b(a), l.iter().map(|x| shift(x, from)).collect()),
+                Expr::Between(n, a, l, h) => Expr::Between(*n, b(a), b(l), b(h)),
+                Expr::Like(n, a, p) => Expr::Like(*n, b(a), b(p)),
+                Expr::IsNull(n, a) => Expr::IsNull(*n, b(a)),
+            }
+        }
+        let mut q = self.clone();
+        let nk = q.keys.len();
+        let mut j = q.aggs.len();
+        while j > 0 {
+            j -= 1;
+            let pos = nk + j;
+            let used = q.sel.contains(&pos) || q.having.as_ref().map(|h| cols_of(h).contains(&pos)).unwrap_or(false);
+            if !used {
+                q.aggs.remove(j);
+                for i in q.sel.iter_mut() { if *i > pos { *i -= 1; } }
+                if let Some(h) = &q.having { q.having = Some(shift(h, pos)); }
+            }
+        }
+        q
+    }
     /// the aggregates the planner extracts (those of the select list)
     pub fn engine_aggs(&self) -> Vec<(AggFn, Expr)> {
         let nk = self.keys.len();
@@ -331,7 +365,12 @@ pub fn rough_class(_t: &Table, q: &Query) -> u32 {
     let hcols: Vec<usize> = q.having.as_ref().map(cols_of).unwrap_or_default();
     let expr_key = |i: &usize| *i < nk && !matches!(q.keys[*i], Expr::Col(_));
     if hcols.iter().any(expr_key) { return 10; }
-    let bad = |i: &usize| *i >= nk && matches!(q.aggs.get(*i - nk), Some((f, e)) if *f != AggFn::CountStar && !matches!(e, Expr::Col(_)));
+    let count_expr = q.aggs.iter().any(|(f, e)| *f == AggFn::Count && !matches!(e, Expr::Col(_)));
+    let bad = |i: &usize| *i >= nk && match q.aggs.get(*i - nk) {
+        Some((AggFn::CountStar, _)) => count_expr,
+        Some((_, e)) => !matches!(e, Expr::Col(_)),
+        None => false,
+    };
     if hcols.iter().any(bad) || (q.sel.iter().any(expr_key) && q.sel.iter().any(bad)) { return 9; }
     0
 }
